@@ -33,7 +33,7 @@ def run(res, tier, seed):
                         rule="histories of writes/flushes in any interleaving (the ticker's timing is the position of Flush) ending in Write v_f; Stop; 0..5 coalesced intermediate views; final views ending in a newline, shrinking, empty; oracle = Spec.shows_final_inline on the real tokens; distinct = distinct (ops, initial rows)")
 
 
-PROPS = ["C07", "C07_thms"]
+PROPS = ["C07", "C07_thms", "C07_skel"]
 
 
 def replay(res, path):
